@@ -107,6 +107,38 @@ def eval_case(case):
     raise ValueError(sub)
 
 
+def eval_large(case):
+    """l = 65: a slot at a word-boundary index is hidden (or fixed) at key generation; filling it through qualifykey / nondelegable_qualifykey
+    must not yield a key that opens a ciphertext with that slot set; ciphertexts for long lists open iff they equal the key's pattern"""
+    W = c11.world(case["cfg"], wk.LONG_L, False, case["seed"])
+    i = case["slot"]
+    m = W.messages()[1]
+    msgs = []
+    for hidc in (wk.HID, wk.MARK + "v1"):
+        key, state = W.replay([["keygen", {"e": sorted([[0, "v1"], [i, hidc]]), "omit": False}]])
+        Lill = {"e": sorted([[0, "v1"], [i, "v2"]]), "omit": False}
+        for via in ("qualify", "ndqualify"):
+            new = W.apply(key, [via, Lill])
+            ct = W.encrypt(m, [(0, W.vals["v1"]), (i, W.vals["v2"])])
+            if W.decrypt(ct, new) == m:
+                msgs.append("l=65: a key with slot %d hidden, pushed through %s with a value for that slot, opens a ciphertext with the slot set" % (i, via))
+    # long ciphertext lists against a key for the same long pattern, and with one entry changed / dropped
+    n = case["n"]
+    F = wk.long_list(n)
+    key, state = W.replay([["keygen", F]])
+    pairs = [(j, W.vals[c]) for j, c in F["e"]]
+    if W.decrypt(W.encrypt(m, pairs), key) != m:
+        msgs.append("l=65: key for a pattern of %d fixed slots does not open its own ciphertext" % n)
+    for pos in (0, n // 2, n - 1):
+        bad = list(pairs)
+        bad[pos] = (bad[pos][0], (bad[pos][1] + 1) % ref.r)
+        if W.decrypt(W.encrypt(m, bad), key) == m:
+            msgs.append("l=65: key for %d fixed slots opens a ciphertext whose entry %d differs" % (n, pos))
+    if W.decrypt(W.encrypt(m, pairs[:-1]), key) == m:
+        msgs.append("l=65: key for %d fixed slots opens a ciphertext without the last entry" % n)
+    return msgs
+
+
 def shards(ctx):
     build.build("asm")
     U = c11.universe(ctx)
@@ -116,10 +148,21 @@ def shards(ctx):
     for st, hists in sorted(reach.items(), key=lambda kv: str(kv[0])):
         out.append({"state": [st[0], list(st[1])], "history": hists[0]})
     ctx.extra["abstract_states"] = len(reach)
+    slots = [31, 32, 33, 63, 64] if ctx.tier == "quick" else [7, 8, 15, 16, 17, 31, 32, 33, 62, 63, 64]
+    ns = [5, 9, 17, 33, 65] if ctx.tier == "quick" else wk.LONG_N
+    for k, i in enumerate(slots):
+        out.append({"sub": "large", "slot": i, "n": ns[k % len(ns)]})
     return out
 
 
 def run_shard(ctx, shard):
+    if shard.get("sub") == "large":
+        case = {"sub": "large", "cfg": "asm", "seed": ctx.seed, "slot": shard["slot"], "n": shard["n"]}
+        msgs = eval_large(case)
+        ctx.ok(True, "large-l")
+        if msgs:
+            ctx.fail(case, "; ".join(msgs[:3]), sig="large-l")
+        return
     U = c11.universe(ctx)
     vals = wk.values(ctx.seed)
     state = (shard["state"][0], tuple(shard["state"][1]))
@@ -174,11 +217,13 @@ def run_shard(ctx, shard):
 
 
 def replay(ctx, case):
+    if case.get("sub") == "large":
+        return eval_large(case)
     return eval_case(case)
 
 
 def finish(merged, cov):
-    for need in ("match:equal", "match:different", "fill:qualify", "fill:ndqualify", "fill:adjust", "fill-after-adjust:qualify"):
+    for need in ("match:equal", "match:different", "fill:qualify", "fill:ndqualify", "fill:adjust", "fill-after-adjust:qualify", "large-l"):
         if not merged.outcomes.get(need):
             return "class %s never exercised" % need
     cov["states"] = merged.extra.get("abstract_states", 1)
